@@ -199,7 +199,15 @@ Inductive query :=
 | QRange (range off : Z) (at_ : option Z)                        (* m[range] offset .. @ ..      *)
 | QRangeFn (f : rfn) (range off : Z) (at_ : option Z)            (* f(m[range] offset .. @ ..)   *)
 | QSub (i : inner) (range step off : Z) (at_ : option Z)         (* (i)[range:step] offset .. @ .. ; step 0 = default *)
-| QSubFn (f : rfn) (i : inner) (range step off : Z) (at_ : option Z).
+| QSubFn (f : rfn) (i : inner) (range step off : Z) (at_ : option Z)
+(* two nesting levels:  (f1((i)[r1:s1] offset off1 @ a1))[r2:s2] offset off2 @ a2  and f2 of it.
+   Only the statement ([spec_eval]) and the select hints ([hints]) are modelled for these; the
+   engine's algorithm for them (window reuse of matrixIterSlice across the outer steps) is not. *)
+| QSub2 (f1 : rfn) (i : inner) (r1 s1 off1 : Z) (a1 : option Z) (r2 s2 off2 : Z) (a2 : option Z)
+| QSub2Fn (f2 f1 : rfn) (i : inner) (r1 s1 off1 : Z) (a1 : option Z) (r2 s2 off2 : Z) (a2 : option Z).
+
+Definition modelled (q : query) : bool :=
+  match q with QSub2 _ _ _ _ _ _ _ _ _ _ | QSub2Fn _ _ _ _ _ _ _ _ _ _ _ => false | _ => true end.
 
 Record cfg := mkCfg { c_ts : Z; c_lookback : Z; c_defstep : Z }.
 
@@ -277,12 +285,28 @@ Definition hints (c : cfg) (q : query) : Z * Z :=
       | None => (se - off - range, se - off)
       end in
     (start - (lb - 1) - inner_off i, end_ - inner_off i) in
+  (* subqueryTimes over the path [outer subquery; inner subquery]: offsets and ranges add up, an @
+     on a subquery resets both to its own and fixes the time *)
+  let sub2 (i : inner) (r1 off1 : Z) (a1 : option Z) (r2 off2 : Z) (a2 : option Z) :=
+    let '(start, end_) :=
+      match inner_at i with
+      | Some a => (a, a)
+      | None =>
+          match a1 with
+          | Some a => (a - off1 - r1, a - off1)
+          | None => let se := match a2 with Some a => a | None => T end in
+                    (se - (off2 + off1) - (r2 + r1), se - (off2 + off1))
+          end
+      end in
+    (start - (lb - 1) - inner_off i, end_ - inner_off i) in
   match q with
   | QInner i => sel (inner_off i) (inner_at i) 0
   | QRange r off a => sel off a r
   | QRangeFn _ r off a => sel off a r
   | QSub i r _ off a => sub i r off a
   | QSubFn _ i r _ off a => sub i r off a
+  | QSub2 _ i r1 _ off1 a1 r2 _ off2 a2 => sub2 i r1 off1 a1 r2 off2 a2
+  | QSub2Fn _ _ i r1 _ off1 a1 r2 _ off2 a2 => sub2 i r1 off1 a1 r2 off2 a2
   end.
 
 Definition restrict (h : Z * Z) (series : list sample) : list sample :=
@@ -366,6 +390,7 @@ Definition engine_eval (c : cfg) (q : query) (series : list sample) : result :=
       let offset := at_offset T off a 0 in
       let maxt := T - offset in
       RVec (call_rfn f T (map pt_of (matrix_iter_slice (buf_new r (map smp_of pts)) (maxt - r) maxt)))
+  | QSub2 _ _ _ _ _ _ _ _ _ _ | QSub2Fn _ _ _ _ _ _ _ _ _ _ _ => RErr     (* not modelled *)
   end.
 
 (* what the engine computes on what the storage returns for the hinted range *)
@@ -426,6 +451,16 @@ Definition spec_rfn (f : rfn) (T : Z) (w : list point) : option point :=
     end
   end.
 
+(* the outer subquery of a nested one: at each of its steps u2 the range function f1 over the inner
+   subquery evaluated at u2 *)
+Definition spec_sub2 (c : cfg) (series : list sample) (f1 : rfn) (i : inner) (r1 s1 off1 : Z) (a1 : option Z)
+  (r2 s2 off2 : Z) (a2 : option Z) : list point :=
+  let te := eff (c_ts c) off2 a2 in
+  flat_map (fun u2 =>
+              match spec_rfn f1 u2 (spec_sub (mkCfg u2 (c_lookback c) (c_defstep c)) series i r1 s1 off1 a1) with
+              | Some p => [p] | None => [] end)
+           (spec_sub_times (sub_interval c s2) (te - r2) te).
+
 Definition spec_eval (c : cfg) (q : query) (series : list sample) : result :=
   let T := c_ts c in
   match q with
@@ -436,6 +471,9 @@ Definition spec_eval (c : cfg) (q : query) (series : list sample) : result :=
   | QSubFn f i r step off a =>
       (* every inner point lies in the outer window (te - r, te] *)
       RVec (spec_rfn f T (spec_sub c series i r step off a))
+  | QSub2 f1 i r1 s1 off1 a1 r2 s2 off2 a2 => RMat (spec_sub2 c series f1 i r1 s1 off1 a1 r2 s2 off2 a2)
+  | QSub2Fn f2 f1 i r1 s1 off1 a1 r2 s2 off2 a2 =>
+      RVec (spec_rfn f2 T (spec_sub2 c series f1 i r1 s1 off1 a1 r2 s2 off2 a2))
   end.
 
 (* ---------------------------------------------------------------- side conditions *)
@@ -452,6 +490,8 @@ Definition wf_query (c : cfg) (q : query) : bool :=
   | QInner _ => true
   | QRange r _ _ | QRangeFn _ r _ _ => 0 <? r
   | QSub _ r s _ _ | QSubFn _ _ r s _ _ => (0 <? r) && (0 <=? s)
+  | QSub2 _ _ r1 s1 _ _ r2 s2 _ _ | QSub2Fn _ _ _ r1 s1 _ _ r2 s2 _ _ =>
+      (0 <? r1) && (0 <=? s1) && (0 <? r2) && (0 <=? s2)
   end.
 
 (* ---------------------------------------------------------------- the engine before the two fixes
